@@ -34,6 +34,7 @@ type codecStats struct {
 	cells, observable, unobservable int
 	evals                           int
 	regEvals                        int
+	offEvals                        int
 	regStates                       map[string]bool
 	blockers                        map[string]int
 	distinct                        map[string]bool
@@ -60,16 +61,18 @@ func (s *codecStats) coverage(rule string, cases []*ProgCase) core.Coverage {
 		samples = append(samples, sm)
 	}
 	return core.Coverage{
-		"evaluations":            s.evals,
-		"distinct_nontrivial":    len(s.distinct),
-		"rule":                   rule,
-		"samples":                samples,
-		"program_configurations": len(cases),
-		"cells":                  s.cells,
-		"observable_cells":       s.observable,
-		"unobservable_cells":     s.unobservable,
-		"unobservable_because":   bl,
-		"exhaustive":             true,
+		"evaluations":                    s.evals,
+		"distinct_nontrivial":            len(s.distinct),
+		"rule":                           rule,
+		"samples":                        samples,
+		"program_configurations":         len(cases),
+		"cells":                          s.cells,
+		"observable_cells":               s.observable,
+		"unobservable_cells":             s.unobservable,
+		"unobservable_because":           bl,
+		"exhaustive":                     true,
+		"non_initial_buffer_evaluations": s.offEvals,
+		"non_initial_buffers":            "every case's first 2 messages x buffers already holding {a5, 01..07}: encoder appends after them (C01/C04/C06), decoder starts behind them (C02); judged only where the same message is handled correctly from the initial state",
 	}
 }
 
@@ -138,6 +141,7 @@ func C01(ctx *core.Ctx) int {
 					}
 				}
 			}
+			offEncChecks(ctx, pc, cc, st, -1)
 		}
 	}
 	cov := st.coverage("cells = (program, option configuration, target); programs = P1 singles under every relevant option point with <= 1 (quick) / <= 2 (thorough) non-default options, the universal packet under every such point, P2 pairs, P3 nesting, P5 graphs, P6 repository protocols; messages = every message with <= 1 / <= 2 members off the baseline over boundary value domains. "+
